@@ -660,6 +660,11 @@ func (c18) Check(out *sim.Outcome, ri *RunInfo) []Violation {
 				vs = append(vs, Violation{Rule: "C18.provider-order", Detail: fmt.Sprintf("provider %d returned the valid address %s, yet provider %d was contacted afterwards", p, expectIP, lastP), Facts: facts("family", family)})
 			}
 		}
+		if decided && expectIP == "" && lastP >= 0 && lastP < 4 {
+			// nobody ended the request: a provider that produced no valid address (final error, or its 2 s
+			// budget used up by refusals, resets or a hang) is followed by the next one
+			vs = append(vs, Violation{Rule: "C18.provider-order", Detail: fmt.Sprintf("discovery stopped after provider %d although no provider had produced a valid address and %d providers had not been asked (returned %q, err %v)", lastP, 4-lastP, it.IP, it.Err), Facts: facts("family", family)})
+		}
 		if decided {
 			got := it.IP
 			if it.Err != nil {
